@@ -27,7 +27,8 @@ def show_opts(options):
     return ','.join('%s=%s' % kv for kv in items)
 
 
-def show_record(r):
+def show_record(r, canon=False):
+    """canon=True: metadata rendered order-insensitively (common.canon_json)"""
     sec = r['section']
     level = len(sec) - len(sec.lstrip('.'))
     name = sec.lstrip('.')
@@ -36,7 +37,7 @@ def show_record(r):
         c = enc_text(t) if isinstance(t, str) else 'b' + t.hex()
     elif 'metadata' in r:
         try:
-            c = 'm' + enc_json(r['metadata'])
+            c = 'm' + (common.canon_json(r['metadata']) if canon else enc_json(r['metadata']))
         except TypeError:
             c = 'm?'
     elif 'diff' in r:
